@@ -777,6 +777,18 @@ pick_next(void)
 		}
 		if (nd == NO_DEADLINE) {
 			std::string d = describe_threads();
+			// where the application threads are stuck (symbolised by the driver)
+			for (int i = 0; i < G.nthr; i++) {
+				Thr *t = G.thr[i];
+				if (t->done || (t->st != ST_CV && t->st != ST_MUTEX) || strncmp(t->name, "nng:", 4) == 0)
+					continue;
+				char   site[200];
+				size_t o = (size_t) snprintf(site, sizeof(site), " [t%d at ", t->id);
+				for (int k = 0; k < 6 && t->wsite[k] != NULL && o + 24 < sizeof(site); k++)
+					o += (size_t) snprintf(site + o, sizeof(site) - o, "%s%p", k ? "<" : "", t->wsite[k]);
+				d += site;
+				d += "]";
+			}
 			sim_finish_with("violation", sim_default_prop(),
 			    "deadlock", d.c_str());
 		}
